@@ -9,6 +9,10 @@
 // from the documentation comments of /repo/Simbody/include/simbody/internal/MobilizedBody_*.h (and the
 // quaternion convention of Quaternion.h); nothing below calls the library to obtain an expected value
 // except where the documentation gives geometric conditions instead of a formula (Ellipsoid).
+// User-defined mobilizers with a q-dependent hinge matrix (engine/models.h: FunctionBased with nonlinear coordinate functions and
+// 1..6 mobilities, the Custom helix slider) are checked the same way against mb::refMobilizerTransform, the long-double closed
+// form of the composition rule documented in MobilizedBody_FunctionBased.h (x,y,z rotation functions applied as a body-fixed
+// sequence about the given axes, x,y,z translation functions along the given axes; qdot == u).
 #include "Simbody.h"
 #include "SimbodyMatterSubsystemRep.h"
 #include "RigidBodyNode.h"
@@ -108,6 +112,7 @@ static std::vector<Variant> allVariants() {
         }
         base.push_back(v);
     }
+    for (int k = mb::KFBN1; k < mb::NKIND; ++k) { Variant v; v.kind = k; base.push_back(v); }     // user-defined, q-dependent hinge matrix
     std::vector<Variant> all;
     for (auto v : base) for (int d = 0; d < 2; ++d) for (int e = 0; e < 2; ++e) {
         if (d == 1 && !mb::kindReversible(v.kind)) continue;
@@ -129,6 +134,7 @@ static MobilizedBody addVariant(mb::Model& M, const Variant& v) {
 }
 static bool usesQuat(const Variant& v) { return mb::kindHasQuaternion(v.kind) && !v.euler; }
 static int refNQ(const Variant& v) {
+    if (mb::kindIsNonlinearUserDefined(v.kind)) return mb::kindNumMobilitiesUserDefined(v.kind);
     switch (v.kind) {
         case mb::KPin: case mb::KSlider: case mb::KScrew: return 1;
         case mb::KUniversal: case mb::KCylinder: case mb::KBendStretch: return 2;
@@ -159,6 +165,11 @@ static bool docPose(const Variant& v, const std::vector<LD>& q, XF& X, bool* has
         X.R = bodyXYZ(q[0], q[1], q[2]); next = 3; return true;
     };
     int n = 0;
+    if (mb::kindIsNonlinearUserDefined(v.kind)) {
+        mb::RefX r; if (!mb::refMobilizerTransform(v.kind, q, r)) return false;
+        for (int i = 0; i < 3; ++i) { X.p[i] = r.p[i]; for (int j = 0; j < 3; ++j) X.R.a[i][j] = r.R[i][j]; }
+        return true;
+    }
     switch (v.kind) {
         case mb::KPin: X.R = rotZ(q[0]); break;                                    // rotation about the common z axis by q
         case mb::KSlider: X.p[0] = q[0]; break;                                    // translation along the common x axis by q
@@ -204,6 +215,9 @@ static bool poseRate(const Variant& v, const std::vector<LD>& q, const std::vect
 static int docVel(const Variant& v, const std::vector<LD>& q, const std::vector<LD>& u, SV& V) {
     for (int i = 0; i < 3; ++i) V.w[i] = V.v[i] = 0;
     XF X;
+    // FunctionBased: "It assumes there is a one to one correspondence between generalized coordinates and generalized speeds, so qdot == u";
+    // the Custom helix slider is defined (engine/models.h) with qdot = u
+    if (mb::kindIsNonlinearUserDefined(v.kind)) return poseRate(v, q, u, V) ? 1 : 0;
     switch (v.kind) {
         // "qdot=u" / "u are the time derivatives of the generalized coordinates" / "u=qdot"
         case mb::KPin: case mb::KSlider: case mb::KUniversal: case mb::KCylinder: case mb::KGimbal: case mb::KBushing: case mb::KTranslation: case mb::KCantilever:
@@ -236,7 +250,7 @@ static bool docSingular(const Variant& v, const std::vector<LD>& q) {
 }
 // translation (linear velocity) is not an independent part of the motion for these kinds: partial fits are unspecified
 static bool coupledTranslation(int kind) {
-    return kind == mb::KEllipsoid || kind == mb::KCantilever || kind == mb::KScrew || kind == mb::KBendStretch || kind == mb::KSphericalDefault || kind == mb::KSphericalCustom;
+    return mb::kindIsNonlinearUserDefined(kind) || kind == mb::KEllipsoid || kind == mb::KCantilever || kind == mb::KScrew || kind == mb::KBendStretch || kind == mb::KSphericalDefault || kind == mb::KSphericalCustom;
 }
 
 // ---------------------------------------------------------------------------------------------- lattice
@@ -369,7 +383,7 @@ static void checkCase(verif::Run& run, const Variant& v, const std::vector<LD>& 
                 if (dk == 0 || v.kind == mb::KPlanar) { bool same = true; for (int i = 0; i < std::min(nq, nu); ++i) same = same && (Real)qd[i] == (Real)us[k][i]; run.count(std::string("unspecified:qdot==u:") + mb::kindName(v.kind) + (same ? ":yes" : ":no")); }
             }
             // where the docs say qdot=u, it must be so exactly
-            if (v.kind == mb::KPin || v.kind == mb::KSlider || v.kind == mb::KUniversal || v.kind == mb::KCylinder || v.kind == mb::KGimbal || v.kind == mb::KBushing || v.kind == mb::KTranslation || v.kind == mb::KCantilever) {
+            if (v.kind == mb::KPin || v.kind == mb::KSlider || v.kind == mb::KUniversal || v.kind == mb::KCylinder || v.kind == mb::KGimbal || v.kind == mb::KBushing || v.kind == mb::KTranslation || v.kind == mb::KCantilever || mb::kindIsNonlinearUserDefined(v.kind)) {
                 bool same = true; for (int i = 0; i < nq; ++i) same = same && (Real)qd[i] == (Real)us[k][i];
                 run.expect(same, "documented-qdot=u/" + vkey, [&] { return "qdot != u at " + desc; }, rp);
             }
@@ -401,6 +415,9 @@ static void checkCase(verif::Run& run, const Variant& v, const std::vector<LD>& 
         return;
     }
     if (sing) { run.count("skipped:fits-at-documented-singularity"); return; }
+    // FunctionBased does not override the fits: "The default implementation uses a nonlinear optimizer to search for the best fit" -- approximate
+    // by documentation, nothing exact to demand.  (The Custom helix slider implements closed-form fits and is judged below.)
+    if (mb::kindIsFunctionBasedNonlinear(v.kind)) { run.count(std::string("skipped:fits(FunctionBased-uses-the-default-optimizer-fit):") + mb::kindName(v.kind)); return; }
     XF Xt = hasP ? (v.dir ? invX(Xdoc) : Xdoc) : Xlib;     // target pose X_FM
     if (!hasP) { XF Xd = Xdoc; for (int i = 0; i < 3; ++i) Xd.p[i] = Xdef.p[i]; Xt = v.dir ? invX(Xd) : Xd; }   // Ellipsoid: documented rotation + realized origin
     const Transform target = toLib(Xt);
@@ -453,8 +470,9 @@ int main(int argc, char** argv) {
     verif::Run run("C05", argc, argv);
     run.setDeadline(600, 3000);    // caps only (shared machine); measured cost in notes/C05.md
     const bool th = run.thorough();
-    run.rule = "E3: every built-in mobilizer KIND (18 + Weld) x OPTION (Screw pitch {.3,-.5}; SphericalCoords default + general{offsets 2 x axis{z,x} x signs 8}; Ellipsoid radii 3; CantileverFreeBeam length 2) x DIR x COORD on one body on Ground with identity frames; q on the full product lattice {-2.5,-.7,0,.4,1.3}^nq for nq<=3 (thorough: also nq=4), all Latin pairs (every coordinate pair over the 5x5 lattice, others at the generic baseline of value set seed%3; thorough: all 3 sets) for larger nq, zero quaternion excluded; u in {0, every e_i, generic}. distinct = distinct (variant, q, valueset); non-trivial = nq>=1";
-    run.assumptions = {"expected X_FM(q) and V_FM(q,u) are hand-transcribed in harness/C05.cpp from the MobilizedBody_*.h documentation comments (one case per kind); Ellipsoid translation and BendStretch/Planar/Screw/SphericalCoords speeds are not given by formula in the docs and are checked through geometric conditions / consistency with the library's qdot instead",
+    run.rule = "E3: every built-in mobilizer KIND (18 + Weld) and every user-defined kind with a q-dependent hinge matrix (FunctionBased with nonlinear coordinate functions and 1..6 mobilities, default and custom axes; Custom helix slider) x OPTION (Screw pitch {.3,-.5}; SphericalCoords default + general{offsets 2 x axis{z,x} x signs 8}; Ellipsoid radii 3; CantileverFreeBeam length 2) x DIR x COORD on one body on Ground with identity frames; q on the full product lattice {-2.5,-.7,0,.4,1.3}^nq for nq<=3 (thorough: also nq=4), all Latin pairs (every coordinate pair over the 5x5 lattice, others at the generic baseline of value set seed%3; thorough: all 3 sets) for larger nq, zero quaternion excluded; u in {0, every e_i, generic}. distinct = distinct (variant, q, valueset); non-trivial = nq>=1";
+    run.assumptions = {"user-defined kinds: expected X_FM(q) is mb::refMobilizerTransform (engine/models.h), the long-double closed form of the composition rule documented in MobilizedBody_FunctionBased.h evaluated on the same function tables by separately written code; V_FM = rate of that pose along u (documented qdot == u); fits are skipped (counted) for FunctionBased, whose fit is the documented approximate default optimizer",
+        "expected X_FM(q) and V_FM(q,u) are hand-transcribed in harness/C05.cpp from the MobilizedBody_*.h documentation comments (one case per kind); Ellipsoid translation and BendStretch/Planar/Screw/SphericalCoords speeds are not given by formula in the docs and are checked through geometric conditions / consistency with the library's qdot instead",
         "single body, identity inboard/outboard frames (frame handling is C01-C04/C06's subject)",
         "fits are demanded only for representable targets, away from the documented singular configurations; partial (translation-only / one-part velocity) fits only where that part is independent of the rest of the motion, otherwise counted as unspecified",
         "relative tolerance 1e-11 for every oracle"};
